@@ -305,7 +305,38 @@ pub fn run(tier: Tier) -> i32 {
         match subject::compile(src, Config { register: false, dedup: true }, HashMap::new()) {
             CompileOutcome::Ok(p) => {
                 if let CircuitType::Ssa(c) = &p.circuit {
-                    if let Some(t) = check_export(c, &format!("export/targeted/{name}"), json!({"source": src}), &cnt, &coll) {
+                    let direct = check_export(c, &format!("export/targeted/{name}"), json!({"source": src}), &cnt, &coll);
+                    // the crate-level wrappers take the same path: same file, same refusals, same import
+                    let site = format!("export/wrapper/{name}");
+                    let path = tmp_path("wrap");
+                    let case = json!({"kind": "bristol-wrapper", "source": src});
+                    match catch(|| garble_lang::compile_to_bristol(src, &path)) {
+                        Err(pn) => coll.push(Violation::new("C11", site.clone(), "export-rust-panic", "", case.clone(), pn)),
+                        Ok(r) => {
+                            let file = std::fs::read_to_string(&path).ok();
+                            match (&direct, r) {
+                                (Some(t), Ok(())) => {
+                                    if file.as_deref() != Some(t.as_str()) {
+                                        coll.push(Violation::new("C11", site.clone(), "compile_to_bristol-writes-a-different-file", "", case.clone(), format!("wrapper wrote {file:?}, export of the compiled circuit is {t:?}")));
+                                    }
+                                    let a = catch(|| garble_lang::compile_bristol_to_circuit(&path));
+                                    let b = catch(|| Circuit::bristol_to_garble(&path));
+                                    let same = match (&a, &b) {
+                                        (Ok(Ok(x)), Ok(Ok(y))) => x.input_gates == y.input_gates && x.gates == y.gates && x.output_gates == y.output_gates,
+                                        _ => false,
+                                    };
+                                    if !same {
+                                        coll.push(Violation::new("C11", site.clone(), "compile_bristol_to_circuit-differs-from-import", "", case.clone(), format!("wrapper: {:?}; importer: {:?}", a.map(|r| r.map(|c| (c.input_gates, c.gates.len())).map_err(|e| format!("{e:?}"))), b.map(|r| r.map(|c| (c.input_gates, c.gates.len())).map_err(|e| format!("{e:?}"))))));
+                                    }
+                                }
+                                (None, Err(_)) => {}
+                                (Some(_), Err(e)) => coll.push(Violation::new("C11", site.clone(), "export-refused", "", case.clone(), format!("{e:?}"))),
+                                (None, Ok(())) => coll.push(Violation::new("C11", site.clone(), "exported-although-output-is-input", "", case.clone(), format!("wrapper wrote {file:?}"))),
+                            }
+                        }
+                    }
+                    let _ = std::fs::remove_file(&path);
+                    if let Some(t) = direct {
                         if t.lines().count() <= 40 {
                             small_exports.push(t);
                         }
